@@ -4,6 +4,7 @@ reference. After every step: wf(), exact ledger, denotation of every held refere
 Used by C02, C06, C07, C08, C09, C14, C17 with different operation mixes and configurations.
 """
 import collections
+import copy
 import gc
 import random
 
@@ -224,7 +225,8 @@ class Sim:
         f, t = self.pick()
         self.log.append(('handle-copy', self.node(f)))
         if self.mode == 'autoref':
-            self.keep(self.m._add_int(int(f)), t)
+            # a second Function object for the same node: through the manager, or as a shallow copy of the object
+            self.keep(self.m._add_int(int(f)) if self.rnd.random() < .5 else copy.copy(f), t)
         else:
             self.keep(f, t)
 
@@ -386,6 +388,23 @@ class Sim:
             r = self.B.image(f, g, {xp: x}, {x}, self.b)
         self.keep(r, want)
 
+    def op_iop(self):
+        """augmented assignment on a name bound to a held Function (`h = f; h &= g`): `h` becomes the conjunction / disjunction, the object
+        that is still held elsewhere keeps its function"""
+        if self.mode != 'autoref':
+            return self.op_apply()
+        (f, t), (g, s) = self.pick(), self.pick()
+        which = self.rnd.choice(['&=', '|='])
+        self.log.append((which, self.node(f), self.node(g)))
+        h = f
+        if which == '&=':
+            h &= g
+            want = t & s
+        else:
+            h |= g
+            want = t | s
+        self.keep(h, want)
+
     def op_json(self):
         """dump a few held functions to a JSON file and load them back into the same manager (dd.autoref): the loaded handles denote the
         same functions and the ledger stays exact (the nodes of the file already exist and are already referenced)"""
@@ -416,12 +435,12 @@ class Sim:
         for g, (_, t) in zip(back, fs):
             self.keep(g, t)
 
-    OPS = dict(json=op_json, fork=op_fork, copyout=op_copy_out, image=op_image, var=op_var, build=op_build, apply=op_apply, ite=op_ite, quant=op_quant, let=op_let, expr=op_expr,
+    OPS = dict(iop=op_iop, json=op_json, fork=op_fork, copyout=op_copy_out, image=op_image, var=op_var, build=op_build, apply=op_apply, ite=op_ite, quant=op_quant, let=op_let, expr=op_expr,
                succ=op_succ, copyh=op_copyh, drop=op_drop, gc=op_gc, gcroots=op_gc_roots, swap=op_swap,
                sift=op_sift, order=op_order, pairs=op_pairs, declare=op_declare, undeclare=op_undeclare)
 
     def step(self, op):
-        needs_held = op in ('apply', 'ite', 'quant', 'let', 'succ', 'copyh', 'copyout', 'image', 'json')
+        needs_held = op in ('apply', 'ite', 'quant', 'let', 'succ', 'copyh', 'copyout', 'image', 'json', 'iop')
         if needs_held and not self.held:
             op = 'var'
         if op in ('var', 'build', 'expr', 'let', 'quant') and not self.declared():
